@@ -1292,7 +1292,7 @@ func (t *tScreen) buildAcsMap() {
 	// to be dropped here or it would be displayed literally.
 	enter := stripPadding(t.ti.EnterAcs)
 	exit := stripPadding(t.ti.ExitAcs)
-	for len(acsstr) > 2 {
+	for len(acsstr) >= 2 {
 		srcv := acsstr[0]
 		dstv := acsstr[1:2] // the raw byte; string(byte) would UTF-8 encode values >= 0x80
 		if r, ok := vtACSNames[srcv]; ok {
